@@ -100,12 +100,15 @@ def check(ctx):
     ctx.inst('R1', run, 'terminate-returns-before-sending', ok, 'after the terminate event no further set-point may be sent (run returns)')
     hl = P.method('land')
     hp = [(p, ev) for p, ev in seq_calls(hl) if fact_key('self._is_flying', True) in p.fact_keys()]
-    ctx.need(len(hp) == 1, 'PositionHlCommander.land: flying path not found')
-    ok, why = order_ok(hp[0][1], ['self._hl_commander.land(landing_height, duration_s)', 'time.sleep(duration_s)', 'self._hl_commander.stop()', 'self._is_flying = False'])
-    ctx.inst('R1', hl, 'hl-landing-order', ok, 'land -> wait -> stop -> clear flag (%s)' % why)
-    texts = [t for k, t in hp[0][1]]
-    after = texts[texts.index('self._hl_commander.stop()') + 1:] if 'self._hl_commander.stop()' in texts else ['?']
-    ctx.inst('R1', hl, 'hl-nothing-after-stop', not [t for t in after if 'self._hl_commander.' in t], 'no high-level command after stop; found %s' % after)
+    ctx.need(len(hp) >= 1, 'PositionHlCommander.land: flying path not found')
+    oks, afters = [], []
+    for p_, ev_ in hp:                                   # every flying path (defaults may be resolved in line: more than one)
+        ok_, why = order_ok(ev_, ['self._hl_commander.land(landing_height, duration_s)', 'time.sleep(duration_s)', 'self._hl_commander.stop()', 'self._is_flying = False'])
+        oks.append((ok_, why))
+        texts = [t for k, t in ev_]
+        afters.append(texts[texts.index('self._hl_commander.stop()') + 1:] if 'self._hl_commander.stop()' in texts else ['?'])
+    ctx.inst('R1', hl, 'hl-landing-order', all(o for o, _ in oks), 'land -> wait -> stop -> clear flag (%s)' % sorted({w for _, w in oks}))
+    ctx.inst('R1', hl, 'hl-nothing-after-stop', not [t for a in afters for t in a if 'self._hl_commander.' in t], 'no high-level command after stop; found %s' % afters[:2])
     ctx.inst('R1', hl, 'hl-landing-duration', canon(ast.parse('(self._z - landing_height) / self._velocity(velocity)', mode='eval').body) in
              [canon(s.value) for s in walk_own(hl.node) if isinstance(s, ast.Assign) and norm(s.targets[0]) == 'duration_s'], 'landing duration = height difference / velocity')
 
@@ -281,6 +284,16 @@ def check(ctx):
     rets = [norm(s.value) for s in walk_own(gp.node) if isinstance(s, ast.Return)]
     ctx.inst('R7', gp, 'reported-position', rets == ['(self._x, self._y, self._z)'], 'get_position returns (x, y, z)')
     for fn, attr in (('_velocity', 'self._default_velocity'), ('_height', 'self._default_height'), ('_landing_height', 'self._default_landing_height')):
+        if not P.has(fn):
+            # the one-line helper was inlined into its users: the default must be taken exactly under `<arg> is self.DEFAULT`
+            sites = []
+            for mth in P.methods.values():
+                gm = cfg_of(mth)
+                for n in gm.nodes:
+                    if n.kind == 'stmt' and isinstance(n.ast, ast.Assign) and norm(n.ast.value) == attr and isinstance(n.ast.targets[0], ast.Name):
+                        sites.append(fact_key('%s is self.DEFAULT' % n.ast.targets[0].id, True) in gm.fact_keys_at(n))
+            ctx.inst('R7', (PH, 'PositionHlCommander'), 'default:' + fn, bool(sites) and all(sites), '%s is substituted in line only for DEFAULT (%d sites)' % (attr, len(sites)))
+            continue
         f = P.method(fn)
         ps, _ = paths_of(f)
         got = sorted((tuple(sorted(p.fact_keys())), norm(p.returned())) for p in ps)
